@@ -19,7 +19,7 @@
    The values are computed with the functions of Spec/DES.v, Spec/KASUMI.v, Spec/SNOW3G.v
    except that every table lookup indexed by secret-derived data goes through [scan_rows]. *)
 From Coq Require Import List NArith Bool Arith Lia.
-From IMB Require Import Lib.Bytes Spec.DES Spec.KASUMI Spec.SNOW3G.
+From IMB Require Import Lib.Bytes Spec.DES Spec.KASUMI Spec.SNOW3G Gen.GenC19.
 Import ListNotations.
 Local Open Scope N_scope.
 
@@ -100,16 +100,19 @@ Fixpoint rows_of (lanes nrows : nat) (tbl : list N) : list (list N) :=
 (* ------------------------------------------------------------------------- *)
 (** * DES (des_basic.c)                                                       *)
 (* ------------------------------------------------------------------------- *)
-(* fRK: x = e_phase(R) ^ K; eight LOOKUP32_SSE(sbox{j}p, (x >> 8j) & 0x3f, sizeof(sbox{j}p)).
-   lookup_32bit_sse takes its size argument in ELEMENTS; the code passes sizeof = 256, so
-   the loop runs 256/4 = 64 rows = 1024 bytes, i.e. 768 bytes beyond the 256-byte table
-   (observed on the binary).  Rows 16..63 never match (index < 64); they are modelled as
-   zero rows.  sbox{j}p = S-box (j+1) composed with P; the model looks up the plain S-box
-   and applies P afterwards (a register computation), which is the same function. *)
+(* fRK: x = e_phase(R) ^ K; eight LOOKUP32_SSE(sbox{j}p, (x >> 8j) & 0x3f, <size>).
+   lookup_32bit_sse takes its size argument in ELEMENTS; [des_lookup_elems] (Gen/GenC19.v,
+   read from the source by translators/t7_lookup_sizes.py) is that argument.  The pinned
+   source passes sizeof(sbox{j}p) = 256, so the loop runs 256/4 = 64 rows = 1024 bytes, i.e.
+   768 bytes beyond the 256-byte table (observed on the binary).  Rows beyond the table never
+   match (index < 64); they are modelled as zero rows.  sbox{j}p = S-box (j+1) composed with
+   P; the model looks up the plain S-box and applies P afterwards (a register computation),
+   which is the same function. *)
+Definition des_scan_rows : nat := Nat.div des_lookup_elems 4.
 Definition des_sbox_flat (Sb : list (list N)) : list N :=
   map (fun i => des_sbox_lookup Sb (N.of_nat i)) (seq 0 64).
 Definition des_sbox_rows (Sb : list (list N)) : list (list N) :=
-  rows_of 4 64 (des_sbox_flat Sb ++ repeat 0 192).
+  rows_of 4 des_scan_rows (des_sbox_flat Sb ++ repeat 0 (des_lookup_elems - 64)).
 
 (* S-boxes still to apply, last one (lowest 6 bits of x) first, with the number of
    the library table; the recursion performs the lookup of the HIGHER bits first so that
@@ -255,7 +258,7 @@ Definition docsis_des_dec_leak (ks : list N) (iv msg : bytes) : M bytes :=
 
 (** ** Public trace functions of DES (what the theorems say the traces are) *)
 Definition des_S_trace : trace :=
-  flat_map (fun j => scan_trace (R_des_sbox j) SITE_LOOKUP32 64 0) (seq 0 8).
+  flat_map (fun j => scan_trace (R_des_sbox j) SITE_LOOKUP32 des_scan_rows 0) (seq 0 8).
 Definition des_block_trace (kr : nat) (enc : bool) (nrounds : nat) : trace :=
   ks_copy_trace kr ++ [Br SITE_DES_ENC enc] ++ concat (repeat des_S_trace nrounds).
 Definition cfb_residue_trace (tE : trace) (cfb : bool) (off len : nat) : trace :=
@@ -286,13 +289,18 @@ Definition des_job_trace (tE tB : trace) (cfb : bool) (len : nat) : trace :=
 (** * KASUMI (kasumi_internal.h)                                              *)
 (* ------------------------------------------------------------------------- *)
 (* FIp1: LOOKUP16_SSE(sso_kasumi_S7e, idx, 256) = 32 rows of 8 uint16,
-         LOOKUP16_SSE(sso_kasumi_S9e, idx, 512) = 64 rows.
+         LOOKUP16_SSE(sso_kasumi_S9e, idx, 512) = 64 rows
+   (the element counts are read from the source: Gen/GenC19.v).
    sso_kasumi_S7e holds the 128 S7 entries twice (so that an 8-bit index works) and
    both "e" tables hold pre-arranged combinations of S7/S9 and the index; the model scans
    tables of the same geometry holding the plain S7 (second half zero) and S9 values and
    does the re-arrangement in registers: same accesses, same function. *)
-Definition kasumi_S7_rows : list (list N) := rows_of 8 32 (kasumi_S7 ++ repeat 0 128).
-Definition kasumi_S9_rows : list (list N) := rows_of 8 64 kasumi_S9.
+Definition kasumi_S7_nrows : nat := Nat.div kasumi_S7_lookup_elems 8.
+Definition kasumi_S9_nrows : nat := Nat.div kasumi_S9_lookup_elems 8.
+Definition kasumi_S7_rows : list (list N) :=
+  rows_of 8 kasumi_S7_nrows (kasumi_S7 ++ repeat 0 (kasumi_S7_lookup_elems - 128)).
+Definition kasumi_S9_rows : list (list N) :=
+  rows_of 8 kasumi_S9_nrows (kasumi_S9 ++ repeat 0 (kasumi_S9_lookup_elems - 512)).
 Definition S7_leak (x : N) : M N := scan R_kasumi_S7 SITE_LOOKUP16 kasumi_S7_rows (N.to_nat x).
 Definition S9_leak (x : N) : M N := scan R_kasumi_S9 SITE_LOOKUP16 kasumi_S9_rows (N.to_nat x).
 
@@ -479,8 +487,8 @@ Definition kasumi_f9_leak (sk msk : list N) (msg : bytes) : M bytes :=
   ret (be32 (N.shiftr m 32)).
 
 (** ** Public trace functions of KASUMI *)
-Definition S7_trace : trace := scan_trace R_kasumi_S7 SITE_LOOKUP16 32 0.
-Definition S9_trace : trace := scan_trace R_kasumi_S9 SITE_LOOKUP16 64 0.
+Definition S7_trace : trace := scan_trace R_kasumi_S7 SITE_LOOKUP16 kasumi_S7_nrows 0.
+Definition S9_trace : trace := scan_trace R_kasumi_S9 SITE_LOOKUP16 kasumi_S9_nrows 0.
 Definition kasumi_FI_trace : trace := S7_trace ++ S9_trace ++ S7_trace ++ S9_trace.
 Definition ks_ld_trace (kr i : nat) : trace := [Ld (R_ks kr) (2 * i) 2].
 Definition kasumi_FL_trace (kr base : nat) : trace := ks_ld_trace kr base ++ ks_ld_trace kr (base + 1).
